@@ -100,6 +100,16 @@ class GreaterThanOrEqual(TypeSafeBinaryOperation):
 
 
 class And(TypeSafeBinaryOperation):
+    def eval(self, row, schema):
+        # three-valued logic: FALSE AND NULL is FALSE
+        value_1 = self.arg1.eval(row, schema)
+        value_2 = self.arg2.eval(row, schema)
+        if (value_1 is not None and not value_1) or (value_2 is not None and not value_2):
+            return False
+        if value_1 is None or value_2 is None:
+            return None
+        return self.unsafe_operation(value_1, value_2)
+
     def unsafe_operation(self, value_1, value_2):
         return value_1 and value_2
 
@@ -108,6 +118,16 @@ class And(TypeSafeBinaryOperation):
 
 
 class Or(TypeSafeBinaryOperation):
+    def eval(self, row, schema):
+        # three-valued logic: TRUE OR NULL is TRUE
+        value_1 = self.arg1.eval(row, schema)
+        value_2 = self.arg2.eval(row, schema)
+        if value_1 or value_2:
+            return True
+        if value_1 is None or value_2 is None:
+            return None
+        return self.unsafe_operation(value_1, value_2)
+
     def unsafe_operation(self, value_1, value_2):
         return value_1 or value_2
 
